@@ -57,7 +57,7 @@ BUILTINS: Dict[str, Any] = {
     "len": len, "range": range, "sorted": sorted, "list": list, "set": set, "tuple": tuple, "dict": dict, "max": max, "min": min,
     "sum": sum, "enumerate": enumerate, "zip": zip, "str": str, "int": int, "float": float, "abs": abs, "any": any, "all": all,
     "bool": bool, "reversed": reversed, "frozenset": frozenset, "True": True, "False": False, "None": None, "isinstance": isinstance,
-    "iter": iter, "next": next, "slice": slice,
+    "iter": iter, "next": next, "slice": slice, "getattr": getattr, "round": round, "repr": repr, "type": type,
 }
 MODULES = {"itertools": {"product": itertools.product, "combinations": itertools.combinations, "chain": itertools.chain, "permutations": itertools.permutations}}
 _BIN = {ast.Add: operator.add, ast.Sub: operator.sub, ast.Mult: operator.mul, ast.Div: operator.truediv, ast.FloorDiv: operator.floordiv,
@@ -66,6 +66,9 @@ _CMP = {ast.Eq: operator.eq, ast.NotEq: operator.ne, ast.Lt: operator.lt, ast.Lt
         ast.In: lambda a, b: a in b, ast.NotIn: lambda a, b: a not in b, ast.Is: operator.is_, ast.IsNot: operator.is_not}
 PURE_TYPES = (str, list, dict, set, tuple, frozenset, int, float, bool, type(None), range)
 FORBIDDEN_METHODS = {"__class__", "__dict__", "__globals__", "__subclasses__", "format_map"}
+
+
+_MISSING = object()
 
 
 class Env:
@@ -78,6 +81,11 @@ class Env:
         while e is not None:
             if k in e.vars:
                 return e.vars[k]
+            lk = getattr(e, "lookup", None)
+            if lk is not None:
+                v = lk(k)
+                if v is not _MISSING:
+                    return v
             e = e.parent
         raise KeyError(k)
 
@@ -188,6 +196,53 @@ class Interp:
             raise _Continue()
         elif isinstance(s, ast.Pass):
             return
+        elif isinstance(s, ast.Try):
+            try:
+                self.exec_block(s.body, env)
+            except InterpRaised as e:
+                for h in s.handlers:
+                    names = []
+                    if h.type is None:
+                        names = ["*"]
+                    elif isinstance(h.type, ast.Tuple):
+                        names = [unparse(x).split(".")[-1] for x in h.type.elts]
+                    else:
+                        names = [unparse(h.type).split(".")[-1]]
+                    if "*" in names or "Exception" in names or "BaseException" in names or e.exc_name.split(".")[-1] in names:
+                        if h.name:
+                            env.set(h.name, e)
+                        self.exec_block(h.body, env)
+                        break
+                else:
+                    self.exec_block(s.finalbody, env)
+                    raise
+            else:
+                self.exec_block(s.orelse, env)
+            self.exec_block(s.finalbody, env)
+        elif isinstance(s, ast.With):
+            for it in s.items:
+                v = self.ev(it.context_expr, env)
+                if it.optional_vars is not None:
+                    self.assign(it.optional_vars, v, env)
+            self.exec_block(s.body, env)
+        elif isinstance(s, ast.Assert):
+            if not self.truth(self.ev(s.test, env)):
+                raise InterpRaised("AssertionError", unparse(s.test)[:100])
+        elif isinstance(s, ast.AnnAssign):
+            if s.value is not None:
+                self.assign(s.target, self.ev(s.value, env), env)
+        elif isinstance(s, ast.Delete):
+            for t in s.targets:
+                if isinstance(t, ast.Subscript):
+                    base = self.ev(t.value, env)
+                    if isinstance(base, (list, dict)) or isinstance(base, Stub):
+                        del base[self.ev(t.slice, env)]
+                    else:
+                        raise Unsupported("del on " + type(base).__name__)
+                elif isinstance(t, ast.Name):
+                    env.vars.pop(t.id, None) if hasattr(env, "vars") else None
+                else:
+                    raise Unsupported("del " + unparse(t))
         elif isinstance(s, ast.Raise):
             exc = s.exc
             name = unparse(exc.func) if isinstance(exc, ast.Call) else (unparse(exc) if exc is not None else "re-raise")
@@ -206,9 +261,22 @@ class Interp:
                 self.assign(a, b, env)
         elif isinstance(t, ast.Subscript):
             base = self.ev(t.value, env)
+            if isinstance(base, Stub) and hasattr(base, "__setitem__"):
+                if isinstance(t.slice, ast.Slice):
+                    raise Unsupported("slice store on a stub")
+                base[self.ev(t.slice, env)] = v
+                return
             if not isinstance(base, (list, dict)):
                 raise Unsupported("subscript store on " + type(base).__name__)
             base[self.ev(t.slice, env)] = v
+        elif isinstance(t, ast.Attribute):
+            base = self.ev(t.value, env)
+            if isinstance(base, Stub) and getattr(base, "_settable", False):
+                setattr(base, t.attr, v)
+                return
+            raise Unsupported("attribute store on " + type(base).__name__)
+        elif isinstance(t, ast.Starred):
+            raise Unsupported("starred target")
         else:
             raise Unsupported("assignment target " + unparse(t))
 
@@ -341,6 +409,20 @@ class Interp:
             if "key" in kwargs and isinstance(kwargs["key"], Function):
                 kf = kwargs["key"]
                 kwargs["key"] = lambda x: kf(x)
+            if fn is isinstance and len(args) == 2:
+                hook = getattr(args[0], "_abs_isinstance", None)
+                if hook is not None:
+                    return hook(args[1])
+                if isinstance(args[1], Stub) or (isinstance(args[1], tuple) and any(isinstance(x, Stub) for x in args[1])):
+                    return False
+            if fn is getattr and len(args) in (2, 3) and isinstance(args[0], Stub) and isinstance(args[1], str):
+                if args[1].startswith("__"):
+                    raise Unsupported("getattr of dunder")
+                if hasattr(args[0], args[1]):
+                    return getattr(args[0], args[1])
+                if len(args) == 3:
+                    return args[2]
+                raise Unsupported(f"stub {type(args[0]).__name__} has no attribute {args[1]}")
             if fn in BUILTINS.values() or any(fn in m.values() for m in MODULES.values()):
                 if fn in (sorted, list, set, tuple, max, min, sum, any, all, enumerate, zip, frozenset, reversed, dict) and args and not isinstance(args[0], PURE_TYPES):
                     args[0] = list(self.iterate(args[0]))
@@ -353,6 +435,10 @@ class Interp:
             if isinstance(fn, StubCall):
                 return fn.f(*args, **kwargs)
             raise Unsupported("call of " + unparse(e.func))
+        if isinstance(e, ast.NamedExpr):
+            v = self.ev(e.value, env)
+            self.assign(e.target, v, env)
+            return v
         if isinstance(e, ast.Starred):
             raise Unsupported("starred")
         raise Unsupported(f"expression {type(e).__name__}: {unparse(e)[:60]}")
